@@ -124,7 +124,13 @@ def _fp_graph(ctx):
             return "{" + ";".join(parts) + "}"
         if isinstance(v, V.JSFunction):
             ids.add(k)
-            return "jsfn:" + v.name
+            parts = ["jsfn:" + v.name]
+            for name, x in getattr(v, "properties", {}).items():
+                parts.append(name + "=" + walk(x, depth + 1))
+            p = getattr(v, "_prototype", None)
+            if p is not None:
+                parts.append("prototype:" + walk(p, depth + 1))
+            return "{" + ";".join(parts) + "}"
         if callable(v):
             return "native:" + getattr(v, "__qualname__", type(v).__name__)
         return "HOST:" + type(v).__name__
@@ -268,6 +274,12 @@ def w_history(case, opts):
 def w_isolation(case, opts):
     from vf import engine as E
     a, b = E.new_context(), E.new_context(None, 100000)
+    # both contexts create values through every constructor / factory the engine has (identical source text in both: anything
+    # memoised per text at module level would be shared), kept reachable from globals so that the graph walk sees them
+    for c in (a, b):
+        r0 = E.run_js(CREATE, {"log": False}, ctx=c)
+        if r0["out"] != "ok":
+            return {"create_failed": r0.get("err")}
     fpb0, idsb = _fp_graph(b)
     fpa0, idsa = _fp_graph(a)
     res = {"shared_ids": len(idsa & idsb), "fresh_equal": fpa0 == fpb0, "muts": []}
@@ -294,6 +306,14 @@ MUTATIONS = [
     "Function.prototype.foo = 1;", "Date.now = function () { return 0; };", "Int8Array = 7;", "ArrayBuffer = 8;",
     "Boolean = 9;", "String = 10;", "Number = 11;", "Error = 12;",
 ]
+CREATE = ("var cF = new Function('v', 'this.v = v'); var cF2 = Function('return 1'); var cR = /x(y)?/g; var cRC = new RegExp('a+', 'i'); var cJ = JSON.parse('{\"a\":[1,{\"b\":2}]}'); "
+          "var cE = new Error('x'); var cTE = (function () { try { null.x; } catch (e) { return e; } })(); var cB = (function () { return this; }).bind({k: 1}); var cT = new Int8Array(2); "
+          "var cBuf = new ArrayBuffer(4); var cA = new Array(3); var cO = Object.create(null); var cS = 'a,b'.split(','); var cM = 'ab'.match(/a/); var cEV = (0, eval)('({e: [1]})'); "
+          "var cK = Object.keys({a: 1}); var cFN = function named() { return 1; }; var cAR = (x) => x; var cI = new cF(5); var cOE = Object.entries({a: 1}); var cSL = [1, 2, 3].slice(1); "
+          "var cMP = [1].map(function (x) { return [x]; }); var cEVF = (0, eval)('(function evf() {})'); var cARGS = (function () { return arguments; })(1, 2); var cASSIGN = Object.assign({}, {z: 1}); 'created'")
+CREATED_MUTATIONS = ["cF.tag = 'A'; cF.prototype.get = function () { return 1; };", "cF2.mark = 7;", "cR.lastIndex = 5; cR.extra = 1;", "cRC.flagged = true;", "cJ.a.push(3); cJ.a[1].b = 9;", "cE.message = 'changed';",
+                     "cTE.extra = 1;", "cB.own = 1;", "cT[0] = 5;", "cA[0] = 'x';", "cO.p = 1;", "cS.push('c');", "cM.extra = 1;", "cEV.e.push(2);", "cK.push('b');", "cFN.prototype.m = 1; cFN.st = 2;",
+                     "cAR.p = 1;", "cI.v = 6; cI.w = 7;", "cOE[0].push('!');", "cSL.pop();", "cMP[0].push(2);", "cEVF.q = 1; cEVF.prototype.r = 2;", "cARGS[0] = 'changed';", "cASSIGN.z = 2;"]
 PROBE = ("[Math.PI > 3.14, Math.floor(2.5), typeof JSON.parse, JSON.stringify([1]), ({}).injected, Object.keys({a: 1}).join(), [].extra, "
          "Array.isArray([]), Math.max(1, 2), new Error('x').name, typeof parseInt, parseInt('12'), isNaN(NaN), typeof RegExp, "
          "({}).toString(), typeof eval, String(undefined), typeof Int8Array, typeof Boolean, typeof Number, "
@@ -424,7 +444,7 @@ def main(ctx):
     try:
         hres = ep.map({"mod": "checks.C12", "fn": "w_history"}, [c for c, _ in hist], batch=10, timeout=300)
         fres = ep.map({"mod": "checks.C12", "fn": "w_fault"}, fscripts, batch=1, timeout=900)
-        ires = ep.map({"mod": "checks.C12", "fn": "w_isolation"}, [{"mutations": MUTATIONS, "probe": PROBE}], batch=1, timeout=300)
+        ires = ep.map({"mod": "checks.C12", "fn": "w_isolation"}, [{"mutations": CREATED_MUTATIONS + MUTATIONS, "probe": PROBE}], batch=1, timeout=300)
     finally:
         ep.close()
     # ---- histories vs model
